@@ -19,7 +19,7 @@ func init() {
 				clFrameGrammar(c)
 				clChecksumOperands(c)
 			})
-			c.Do("C05.e", "L2 restored count source and verification", 8, func() { clRestoredCount(c); clVerificationPrecedesAcceptance(c) })
+			c.Do("C05.e", "L2 restored count source and verification", 8, func() { clRestoredCount(c); clVerificationPrecedesAcceptance(c); clRestoreItemSize(c) })
 		},
 	})
 }
